@@ -345,37 +345,111 @@ macro_rules! impl_tryfrom_float {
 impl_tryfrom_float!(f32);
 impl_tryfrom_float!(f64);
 
-// TODO: Shitty way of rounding integers
+/// Round a `<NRf>` formatted literal to the nearest integer (ties away from zero).
+///
+/// Works on the decimal digits directly so the result does not depend on the precision of an
+/// intermediate float and never wraps. A magnitude too large for any supported integer type is
+/// reported as overflow/underflow.
+fn round_decimal(value: &[u8]) -> Result<i128, lexical_core::Error> {
+    // Far above every supported integer type, far below i128::MAX
+    const LIMIT: i128 = 1_000_000_000_000_000_000_000_000_000_000;
+
+    let (negative, unsigned) = match value.first() {
+        Some(b'-') => (true, &value[1..]),
+        Some(b'+') => (false, &value[1..]),
+        _ => (false, value),
+    };
+    let (mantissa, exponent) = match unsigned.iter().position(|c| *c == b'E' || *c == b'e') {
+        Some(pos) => {
+            let exp = &unsigned[pos + 1..];
+            let (exp_negative, exp_digits) = match exp.first() {
+                Some(b'-') => (true, &exp[1..]),
+                Some(b'+') => (false, &exp[1..]),
+                _ => (false, exp),
+            };
+            if exp_digits.is_empty() {
+                return Err(lexical_core::Error::EmptyExponent(pos + 1));
+            }
+            let mut e = 0i64;
+            for (i, c) in exp_digits.iter().enumerate() {
+                if !c.is_ascii_digit() {
+                    return Err(lexical_core::Error::InvalidDigit(pos + 1 + i));
+                }
+                e = (e * 10 + (c - b'0') as i64).min(1_000_000);
+            }
+            (&unsigned[..pos], if exp_negative { -e } else { e })
+        }
+        None => (unsigned, 0),
+    };
+    let integer_len = mantissa
+        .iter()
+        .position(|c| *c == b'.')
+        .unwrap_or(mantissa.len());
+    // Number of mantissa digits in front of the decimal point once the exponent is applied
+    let point = integer_len as i64 + exponent;
+
+    let mut magnitude = 0i128;
+    let mut round_up = false;
+    let mut index = 0i64;
+    let mut any_digit = false;
+    for (i, c) in mantissa.iter().enumerate() {
+        if i == integer_len {
+            // The decimal point itself
+            continue;
+        }
+        if !c.is_ascii_digit() {
+            return Err(lexical_core::Error::InvalidDigit(i));
+        }
+        any_digit = true;
+        let digit = (c - b'0') as i128;
+        if index < point {
+            magnitude = (magnitude * 10 + digit).min(LIMIT);
+        } else if index == point {
+            // First fractional digit decides the rounding
+            round_up = digit >= 5;
+        }
+        index += 1;
+    }
+    if !any_digit {
+        return Err(lexical_core::Error::Empty(0));
+    }
+    // Trailing zeros implied by a positive exponent
+    while index < point && magnitude != 0 && magnitude < LIMIT {
+        magnitude = (magnitude * 10).min(LIMIT);
+        index += 1;
+    }
+    if round_up {
+        magnitude += 1;
+    }
+    if magnitude >= LIMIT {
+        if negative {
+            Err(lexical_core::Error::Underflow(0))
+        } else {
+            Err(lexical_core::Error::Overflow(0))
+        }
+    } else if negative {
+        Ok(-magnitude)
+    } else {
+        Ok(magnitude)
+    }
+}
+
 macro_rules! impl_tryfrom_integer {
-    ($from:ty, $intermediate:ty) => {
+    ($from:ty) => {
         impl<'a> TryFrom<Token<'a>> for $from {
             type Error = Error;
 
             fn try_from(value: Token) -> Result<Self, Self::Error> {
                 match value {
-                    Token::DecimalNumericProgramData(value) => lexical_core::parse::<$from>(value)
-                        .or_else(|e| {
-                            if matches!(e, lexical_core::Error::InvalidDigit(_)) {
-                                let value = lexical_core::parse::<$intermediate>(value)?;
-
-                                if !value.is_normal() {
-                                    Err(lexical_core::Error::Overflow(0).into())
-                                } else if value > (<$from>::MAX as $intermediate) {
-                                    Err(lexical_core::Error::Overflow(0).into())
-                                } else if value < (<$from>::MIN as $intermediate) {
-                                    Err(lexical_core::Error::Underflow(0).into())
+                    Token::DecimalNumericProgramData(value) => round_decimal(value)
+                        .and_then(|rounded| {
+                            <$from>::try_from(rounded).map_err(|_| {
+                                if rounded < 0 {
+                                    lexical_core::Error::Underflow(0)
                                 } else {
-                                    // <f32|f64>::round() doesn't exist in no_std...
-                                    // Safe because value is checked to be normal and within bounds earlier
-                                    if value.is_sign_positive() {
-                                        Ok(unsafe { (value + 0.5).to_int_unchecked() })
-                                    } else {
-                                        Ok(unsafe { (value - 0.5).to_int_unchecked() })
-                                    }
+                                    lexical_core::Error::Overflow(0)
                                 }
-                            } else {
-                                Err(e)
-                            }
+                            })
                         })
                         .map_err(|e| match e {
                             lexical_core::Error::InvalidDigit(_) => {
@@ -410,15 +484,13 @@ macro_rules! impl_tryfrom_integer {
     };
 }
 
-// Need to fallback to floating point if numeric is not NR1 formatted.
-// Use double precision on larger types to avoid rounding errors.
-impl_tryfrom_integer!(usize, f64);
-impl_tryfrom_integer!(isize, f64);
-impl_tryfrom_integer!(i64, f64);
-impl_tryfrom_integer!(u64, f64);
-impl_tryfrom_integer!(i32, f64);
-impl_tryfrom_integer!(u32, f64);
-impl_tryfrom_integer!(i16, f32);
-impl_tryfrom_integer!(u16, f32);
-impl_tryfrom_integer!(i8, f32);
-impl_tryfrom_integer!(u8, f32);
+impl_tryfrom_integer!(usize);
+impl_tryfrom_integer!(isize);
+impl_tryfrom_integer!(i64);
+impl_tryfrom_integer!(u64);
+impl_tryfrom_integer!(i32);
+impl_tryfrom_integer!(u32);
+impl_tryfrom_integer!(i16);
+impl_tryfrom_integer!(u16);
+impl_tryfrom_integer!(i8);
+impl_tryfrom_integer!(u8);
